@@ -42,15 +42,20 @@ def main():
     finally:
         sh(f"git -C /repo worktree remove --force {wt}")
     meta["confirmed"] = bool(meta.get("tests_pass") and meta.get("demo_on_changed_exit") == 1 and meta.get("demo_on_clean_exit") == 0)
-    # run the registered checks against /repo with the change applied
+    # run the registered checks against a scratch worktree with the change applied (same code path as
+    # /repo: the checks import dyce from $DYCE_REPO); outputs go to a scratch directory
     results = {}
     if meta["confirmed"]:
-        assert sh("git -C /repo status --porcelain")[1].strip() == "", "repo not clean"
-        rc, out = sh(f"git -C /repo apply {diff}")
+        wt2 = Path(f"/tmp/seed/run_{pid}_{m}")
+        sh(f"git -C /repo worktree remove --force {wt2}")
+        sh(f"git -C /repo worktree add -f {wt2} HEAD")
+        rc, out = sh(f"git -C {wt2} apply {diff}")
+        scratch = Path(f"/tmp/seed/scratch_{pid}_{m}")
+        env2 = dict(os.environ, DYCE_REPO=str(wt2), VERIF_SCRATCH=str(scratch))
         try:
             checks = sys.argv[3].split(",") if len(sys.argv) > 3 else [pid]
             for c in checks:
-                rcc, oc = sh(f"./check {c} --tier quick", cwd=str(VERIF), timeout=3000)
+                rcc, oc = sh(f"./check {c} --tier quick", cwd=str(VERIF), env=env2, timeout=3000)
                 lines = [l for l in oc.splitlines() if l.startswith("VIOLATION")]
                 results[c] = {"exit": rcc, "violations": lines[:3]}
                 for l in lines[:1]:
@@ -62,8 +67,8 @@ def main():
                     except Exception:
                         pass
         finally:
-            sh("git -C /repo checkout -- .")
-            sh("rm -rf /verif/replays")
+            sh(f"git -C /repo worktree remove --force {wt2}")
+            sh(f"rm -rf {scratch}")
     meta["checks"] = results
     meta["caught_by"] = [c for c, r in results.items() if r["exit"] == 1]
     dst = VERIF / "seeded" / f"{pid}-{m}"
@@ -72,7 +77,7 @@ def main():
         shutil.copy(diff, dst / "patch.diff")
         shutil.copy(demo, dst / "demo.py")
         meta["what_i_ran"] = ("scratch worktree: demo on clean tree (exit 0), git apply patch, full pytest (250 passed), demo (exit 1); "
-                              "then git -C /repo apply patch, ./check <ids> --tier quick, git -C /repo checkout -- .")
+                              "then a second scratch worktree with the patch applied, DYCE_REPO=<worktree> ./check <ids> --tier quick, worktree removed")
         (dst / "meta.json").write_text(json.dumps(meta, indent=1))
     print(json.dumps({k: meta[k] for k in ("id", "confirmed", "tests", "demo_on_clean_exit", "demo_on_changed_exit", "caught_by")}, indent=None))
     for c, r in results.items():
